@@ -16,9 +16,13 @@ SNAKE = ["id", "amount", "name", "title", "level", "x", "y", "coords", "kind", "
          "gold", "npc_index", "session", "emote", "direction", "tiles", "rows", "warp", "key", "slot", "page", "news", "guild_tag"]
 MEMBERS = ["Ok", "None", "Error", "Busy", "Player", "Spy", "Down", "Left", "Up", "Right", "Exists", "Created", "Changed", "Denied",
            "Temporary", "Permanent", "Normal", "Pk", "Wall", "Chest", "General", "Heal", "Light", "Dark", "EnterGame", "Yes", "No"]
-RESERVED_TYPES = {"packet", "net", "map", "pub", "client", "server", "data", "encrypt", "protocol", "packetfamily", "packetaction",
-                  "eoreader", "eowriter", "serializationerror", "protocolenummeta", "packetsequencer", "sequencestart",
-                  "generated", "intenum", "optional", "union", "iterable", "cast", "annotations"}
+RESERVED_TYPES = {"packetfamily", "packetaction", "eoreader", "eowriter", "serializationerror", "protocolenummeta", "packetsequencer",
+                  "sequencestart", "generated", "intenum", "optional", "union", "iterable", "cast", "annotations"}
+# a type whose module name equals a sub-directory of its own directory would collide with that package
+RESERVED_BY_PATH = {"": {"net", "map", "pub"}, "net": {"client", "server"}, "pub": {"server"}}
+# names that become awkward module / attribute names somewhere in the package (C18, C20)
+AWKWARD = ["Data", "Encrypt", "Protocol", "Net2", "MapX", "Pub9", "Enum", "Int", "Type", "List", "Dict", "Reader", "Writer",
+           "Client", "Server", "PACKET", "Net", "Map", "Pub", "Sys", "Abc", "Typing"]
 COMMENT_BITS = ["The thing", "used for <b>stuff</b> & more", "it's > 9", "line one\nline two", "100% of 'it'", "a < b", "§ ünï ©"]
 INT_KINDS = ["byte", "char", "short", "three", "int"]
 
@@ -53,13 +57,13 @@ class SpecGen:
     def chance(self, p):
         return self.rng.random() < p
 
-    def type_name(self):
+    def type_name(self, path=""):
         rng = self.rng
         for _ in range(200):
             n = rng.choice(PASCAL) + (str(rng.randrange(2, 99)) if rng.random() < 0.6 else "")
-            if self.awkward and rng.random() < 0.3:
-                n = rng.choice(["Data", "Encrypt", "Protocol", "Net2", "MapX", "Pub9", "Enum", "Int", "Type", "List", "Dict", "Reader", "Writer"])
-            if n.lower() not in self.type_names and n.lower() not in RESERVED_TYPES:
+            if self.awkward and rng.random() < 0.35:
+                n = rng.choice(AWKWARD)
+            if n.lower() not in self.type_names and n.lower() not in RESERVED_TYPES and n.lower() not in RESERVED_BY_PATH.get(path, ()) and n != "Packet":
                 self.type_names.add(n.lower())
                 return n
         raise RuntimeError("name pool exhausted")
@@ -92,11 +96,11 @@ class SpecGen:
                 f.enums += [fam, act]
             n_enums = rng.randrange(0, 3) if path else rng.randrange(1, 4)
             for _ in range(int(n_enums * self.size + 0.5)):
-                f.enums.append(self.gen_enum())
+                f.enums.append(self.gen_enum(path))
             self.refresh()
             n_structs = rng.randrange(0, 4)
             for _ in range(int(n_structs * self.size + 0.5)):
-                s = S.Struct(self.type_name(), [], self.comment())
+                s = S.Struct(self.type_name(path), [], self.comment())
                 s.body = self.gen_body(Ctx(), rng.randrange(1, 7) if not (self.allow_empty and self.chance(0.08)) else 0)
                 f.structs.append(s)
                 self.refresh()
@@ -122,10 +126,10 @@ class SpecGen:
             ords.add(rng.choice([rng.randrange(0, 12), rng.randrange(0, min(lim, 260)), lim - 1 - rng.randrange(0, 3)]) % lim)
         return [(nm, o, self.comment()) for nm, o in zip(names, sorted(ords))]
 
-    def gen_enum(self):
+    def gen_enum(self, path=""):
         wire = self.rng.choice(["byte", "char", "char", "char", "short", "short", "three", "int"])
         self.feat("enum:" + wire)
-        return S.Enum(self.type_name(), wire, self.enum_values(wire, self.rng.randrange(1, 7)), self.comment())
+        return S.Enum(self.type_name(path), wire, self.enum_values(wire, self.rng.randrange(1, 7)), self.comment())
 
     # ------------------------------------------------------------ types
     def enums_available(self):
@@ -184,6 +188,11 @@ class SpecGen:
                     n -= 1
                     continue
                 break
+            if ctx.opt and ctx.chunked and self.chance(0.25):
+                # optional tails are per chunk: let a new chunk (possibly with its own optional tail) follow
+                self.emit_break(body, ctx)
+                n -= 1
+                continue
             r = rng.random()
             if r < 0.42:
                 ok = self.emit_field(body, ctx)
